@@ -184,6 +184,50 @@ Theorem C18_bulk_unchanged :
 Proof. exact bulk_unchanged_all. Qed.
 Print Assumptions C18_bulk_unchanged.
 
+(** the bulk state is read per segment and written back through the component index: if the segment densities are
+    consistent with component densities f, the rebuilt state is f; in particular (default specification, no stage
+    changes the segment densities) the bulk state of the profile is unchanged — for any number of segments per
+    component *)
+Theorem C18_write_back_gather :
+  forall (ci : nat -> nat) (rb f : nat -> R) (S : nat) (m0 : nat -> R) (c : nat),
+  (forall s, (s < S)%nat -> rb s = f (ci s)) -> (exists s, (s < S)%nat /\ ci s = c) ->
+  write_back ci rb S m0 c = f c.
+Proof. exact write_back_gather. Qed.
+Print Assumptions C18_write_back_gather.
+
+Theorem C18_bulk_roundtrip :
+  forall (ci : nat -> nat) (pd : nat -> R) (S : nat) (m0 : nat -> R) (c : nat),
+  (exists s, (s < S)%nat /\ ci s = c) -> write_back ci (gather ci pd) S m0 c = pd c.
+Proof. exact bulk_roundtrip. Qed.
+Print Assumptions C18_bulk_roundtrip.
+
+(** writing segment i to component i instead is refuted for 3 + 4 segments in 2 components *)
+Theorem C18_write_back_by_position_refuted :
+  exists (ci : nat -> nat) (pd : nat -> R) (m0 : nat -> R),
+    (forall c, (c < 2)%nat -> exists s, (s < 7)%nat /\ ci s = c) /\
+    write_back ci (gather ci pd) 7 m0 1%nat = pd 1%nat /\
+    write_back_by_position (gather ci pd) 2 m0 1%nat <> pd 1%nat.
+Proof. exact write_back_by_position_refuted. Qed.
+Print Assumptions C18_write_back_by_position_refuted.
+
+(** specifications taken from the (initial) profile: a stationary point contains the particle numbers of THAT
+    profile (fix_equimolar_surface, moles_from_profile) *)
+Theorem C18_moles_from_profile_preserved :
+  forall (S G : nat) (w : nat -> R) (e rho : nat -> nat -> R) (rhob : nat -> R) (rho0 : nat -> nat -> R),
+  nondegenerate S G w e rhob (moles_from_profile G w rho0) ->
+  stationary S G w e rho rhob (moles_from_profile G w rho0) ->
+  forall i, (i < S)%nat -> moles G w rho i = moles G w rho0 i.
+Proof. exact moles_from_profile_preserved. Qed.
+Print Assumptions C18_moles_from_profile_preserved.
+
+Theorem C18_total_moles_from_profile_preserved :
+  forall (S G : nat) (w : nat -> R) (e rho : nat -> nat -> R) (rhob : nat -> R) (rho0 : nat -> nat -> R),
+  nondegenerate S G w e rhob (total_moles_from_profile S G w rho0) ->
+  stationary S G w e rho rhob (total_moles_from_profile S G w rho0) ->
+  sumf (moles G w rho) S = sumf (moles G w rho0) S.
+Proof. exact total_moles_from_profile_preserved. Qed.
+Print Assumptions C18_total_moles_from_profile_preserved.
+
 (** direction of the bulk-density update of the Picard stage (frozen Boltzmann factor): the coded update
     contracts towards the target; with the sign the code had before the repair it moved away from it *)
 Theorem C18_picard_bulk_update_contracts :
